@@ -77,8 +77,11 @@ BOX_KIND = {"o2.5": "ortho", "o3": "ortho", "o345": "ortho", "o2": "ortho_dyadic
 # cap for rows x (2c+1)^3 x max_cell_length of one call (biotite allocates that worst-case buffer per call)
 MAX_SLOTS = {"full": 2_500_000, "mid": 1_000_000, "lite": 300_000, "mini": 300_000, "tiny": 300_000, "micro": 300_000}
 
+SUB64 = [0.0, 0.5, 1.0, 2.0]
 L125 = geom.lattice(LATT)
 L27 = geom.lattice(SUB27)
+L64 = geom.lattice(SUB64)
+IN64 = [bool(np.isin(p, SUB64).all()) for p in L125]
 
 
 def _structured():
@@ -140,7 +143,7 @@ QSETS = {k: _qset(k) for k in ("lite", "full", "mini")}
 
 def bounds(tier):
     b = {
-        "lattice": LATT, "sublattice27": SUB27, "cell_sizes": CELL_SIZES, "radii": RADII, "cell_radii": CELL_RADII,
+        "lattice": LATT, "sublattice27": SUB27, "sublattice64": SUB64, "cell_sizes": CELL_SIZES, "radii": RADII, "cell_radii": CELL_RADII,
         "query_sets": {k: int(len(v)) for k, v in QSETS.items()},
         "query_range": "[-3,5]^3 step 0.5 (full: all 4913; lite: 9^3 axis values %s) + 4 far points (1e6, 1e9, -1024.5) "
                        "+ 3 non-finite" % QV_LITE,
@@ -153,7 +156,9 @@ def bounds(tier):
         b["multisets"] = "k<=2 over 125 lattice points (8000), k=3 over 27-point sublattice (3654)"
         b["periodic_multisets"] = "k=1 over the 27-point sublattice x 8 boxes, k=2 (378) x boxes o2.5, o4, t1, t2"
     else:
-        b["multisets"] = "k<=3 over 125 lattice points (341375), k=4 over 27-point sublattice (27405)"
+        b["multisets"] = ("k<=2 over 125 lattice points (8000); k=3 over the 64-point sublattice {0,0.5,1,2}^3 (45760) and "
+                          "over 125 points with one point at the corner (0,0,0) and not all in the sublattice (5795); "
+                          "k=4 over the 27-point sublattice (27405)")
         b["periodic_multisets"] = ("k<=3 over the 27-point sublattice (4059) x 8 boxes, k=2 over 125 points (7875) x "
                                    "boxes o3, t1")
     return b
@@ -169,6 +174,8 @@ def cfg_coords(cfg):
         base = L125[list(cs[1])]
     elif cs[0] == "ms27":
         base = L27[list(cs[1])]
+    elif cs[0] == "ms64":
+        base = L64[list(cs[1])]
     elif cs[0] == "st":
         base = STRUCT[cs[1]]
     elif cs[0] == "raw":
@@ -695,7 +702,8 @@ def shards(tier, seed):
         ms = [("ms", 1, 1, "lite"), ("ms", 2, 16, "tiny"), ("ms27", 3, 8, "tiny")]
         pms = [("ms27", 1, 1, "mini", allb), ("ms27", 2, 4, "tiny", ["o2.5", "o4", "t1", "t2"])]
     else:
-        ms = [("ms", 1, 1, "mid"), ("ms", 2, 16, "lite"), ("ms", 3, 240, "micro"), ("ms27", 4, 24, "tiny")]
+        ms = [("ms", 1, 1, "mid"), ("ms", 2, 16, "lite"), ("ms64", 3, 48, "tiny"), ("msc", 3, 8, "tiny"),
+              ("ms27", 4, 24, "tiny")]
         pms = [("ms27", 1, 1, "mini", allb), ("ms27", 2, 4, "mini", allb), ("ms27", 3, 8, "tiny", allb),
                ("ms", 2, 8, "tiny", ["o3", "t1"])]
     for fam, k, parts, level in ms:
@@ -754,9 +762,16 @@ def _run_shard(shard, ctx):
 
 def run_ms(shard, ctx, bname):
     fam, k, part, parts = shard["fam"], shard["k"], shard["part"], shard["parts"]
-    npts = 125 if fam == "ms" else 27
+    npts = {"ms": 125, "msc": 125, "ms64": 64, "ms27": 27}[fam]
     level = shard.get("level", "lite")
-    for idx, tup in enumerate(geom.multisets(npts, k)):
+    if fam == "msc":
+        # k points of the full lattice, one of them the corner (0,0,0), not all inside the 64-point sub-lattice
+        # (those are enumerated by the ms64 family): no case is repeated
+        gen = ((0,) + t for t in geom.multisets(125, k - 1) if not all(IN64[i] for i in t))
+        fam = "ms"
+    else:
+        gen = geom.multisets(npts, k)
+    for idx, tup in enumerate(gen):
         if idx % parts != part:
             continue
         for cs in CELL_SIZES:
